@@ -19,10 +19,18 @@ CHECKS = {
    "Same histories under a bouncing ledger Hal: exact share/unshare pairing per operation with matching range, direction, flag and device address; no platform call on refused operations; every device-visible address translates through the ledger; device-written bytes appear in caller buffers exactly at pop.",
    "Trusted: ledger Hal (bounce semantics as swiotlb: copy-in at share, copy-back at unshare).",
    "proptest histories + share/unshare ledger invariant, bounce-buffer data oracle"),
+ "C05": ("notify", "exploration", "4 C05",
+   "Event-index: every batch size and every placement of avail_event relative to the window, for all 65536 index values on the real queue, against vring_need_event (one-directional, as the property states), plus the full 65536x65536 (index, avail_event) table when the implementation is observed to be stateless. Flag mode, set_dev_notify and used_event re-arming are checked inside generated queue histories. The shared blocking helper is co-simulated against notify-driven, polling and late devices through a spin hook that detects a wait that can never end.",
+   "Trusted: the co-simulated device follows the spec's re-arm/re-check rule. Single-threaded schedule owned by the harness; real concurrency is not explored.",
+   "exhaustive predicate sweep/table + proptest co-simulation with device-policy generator"),
+ "C06": ("layout", "exploration", "4 C06",
+   "The full configuration grid (16 sizes x legacy/modern x 8 flag sets x in-use x 7 max-size answers x 3 DMA fault points = 10752 configurations) is enumerated on every run and a generator adds random device-address bases; geometry, containment in live DMA memory of a permitting direction, zeroed rings, refusal without side effects and exact release are computed independently of the crate.",
+   "Trusted: ledger Hal and model transport. The grid is exhaustive; device-address bases are sampled.",
+   "exhaustive configuration enumeration + proptest on address bases, geometry oracle"),
 }
 
 TODO = {}
-for i in range(5, 21):
+for i in range(7, 21):
     TODO["C%02d" % i] = "check not built yet in this round (planned, see DESIGN.md section 4)"
 
 def main():
@@ -38,7 +46,11 @@ def main():
             "add_only": True,
         },
         "engines": [
-            {"name": "queue-history", "path": "harness/src/props/qh.rs", "serves_properties": ["C01", "C02", "C03", "C04"],
+            {"name": "notify", "path": "harness/src/props/c05.rs", "serves_properties": ["C05"],
+             "kind_free_text": "exhaustive should_notify sweep/table on a real queue + spin-hook co-simulation of blocking helpers"},
+            {"name": "layout", "path": "harness/src/props/c06.rs", "serves_properties": ["C06"],
+             "kind_free_text": "exhaustive queue-creation grid + generated address bases against a geometry oracle"},
+            {"name": "queue-history", "path": "harness/src/props/qh.rs", "serves_properties": ["C01", "C02", "C03", "C04", "C05"],
              "kind_free_text": "proptest-generated histories on a raw VirtQueue over a ledger Hal + model transport + reference split-virtqueue device"},
         ],
         "checks": [],
